@@ -1581,23 +1581,33 @@ def check_module_files(rep: Report, ctx: Any, rid: str) -> None:
     rep.floor("per_item_module_files", n, 2)
 
 
-def check_enum_class_shared(rep: Report, ctx: Any, rid: str) -> None:
-    """the compatibility condition of the enum builders on its own (the same obligations `check_registries` states after the stores):
-    for the properties that claim it for another reason than uniqueness of names"""
+def check_enum_name_identifies_values(rep: Report, ctx: Any, rid: str) -> int:
+    """The compatibility condition of the enum builders on its own (the same obligations, with the same construct keys, as the last part
+    of check_registries): under one class name only one list of values is ever registered - an entry of another kind or with other values
+    under the name of the enum that is being built is a diagnostic.  For properties that claim it separately (C15: the class that is
+    generated for a narrowed enum is found by its name).  Returns the number of decisions that were judged."""
     ix = ctx.py
+    n = 0
     for cname in ("EnumProperty", "LiteralEnumProperty"):
         c = ix.cls(cname)
         b = c.methods.get("build")
         rep.require(b, f"{cname}.build")
-        found = False
         reg_b = region(ix, b)
-        answering = {n for g in reg_b for n in _Compat(ix, g, cname).consumed()}
+        answering = {name for g in reg_b for name in _Compat(ix, g, cname).consumed()}
+        found = False
         for g in reg_b:
             if g.name in answering:
                 continue
             for verdict, at, shown in _existing_compatible(g, cname, ix):
                 found = True
+                n += 1
                 rep.check(verdict, rid, f"{short(g)}::existing-compatible",
                           "an existing class of another kind or with other values under the same name must be diagnosed",
                           where(g, at), lhs=shown, rhs="only error returns are reachable whenever existing is not this enum kind or values differ")
         rep.require(found, f"{cname}.build compatibility test")
+    return n
+
+
+def check_enum_class_shared(rep: Report, ctx: Any, rid: str) -> None:
+    """the same condition under the name C02 claims it by (a class shared by name holds the values of every declaration that names it)"""
+    check_enum_name_identifies_values(rep, ctx, rid)
